@@ -47,7 +47,7 @@ def run(prop, tier, seed, known):
         for it in range(N):
             # ---------------------------------------------------------------- beat
             k = rng.randint(6, 12)
-            period = rng.choice([0.5, 0.75, 1.0, 0.25, 0.3])
+            period = rng.choice([0.5, 0.75, 1.0, 0.25])      # binary-exact periods only: the 10 ms quantisation of P-score makes other lattices shift-sensitive by rounding
             start = rng.choice([5.0, 5.25, 6.0])
             ref = np.array([start + i * period for i in range(k)])
             kind = rng.choice(['same', 'shifted', 'double', 'half', 'jitter', 'few', 'slip'])
@@ -232,6 +232,14 @@ def run(prop, tier, seed, known):
                     fails.append('octave: multiplying reference and estimate by 2 changes melody scores: %s vs %s' % (dict(m0), dict(m3)))
                 if m0['Raw Pitch Accuracy'] > m0['Raw Chroma Accuracy'] + 1e-12:
                     fails.append('nested: raw pitch above raw chroma accuracy')
+                # the estimate starts later than the reference (a frame at time 0 is padded in): negation still changes nothing
+                lt_ = tt[1:] if len(tt) > 2 else tt
+                le_ = ef[1:] if len(tt) > 2 else ef
+                s0_ = guard('melody.evaluate (late start)', lambda: melody.evaluate(tt, rf, lt_, le_))
+                s1_ = guard('melody.evaluate (late start, negated)', lambda: melody.evaluate(tt, rf, lt_, -le_))
+                if s0_ is not None and s1_ is not None and (abs(s0_['Raw Pitch Accuracy'] - s1_['Raw Pitch Accuracy']) > 1e-9 or abs(s0_['Raw Chroma Accuracy'] - s1_['Raw Chroma Accuracy']) > 1e-9):
+                    fails.append('octave/sign: negating the estimated frequencies changes raw pitch / raw chroma accuracy when the estimate starts after time 0: %s vs %s'
+                                 % ((s0_['Raw Pitch Accuracy'], s0_['Raw Chroma Accuracy']), (s1_['Raw Pitch Accuracy'], s1_['Raw Chroma Accuracy'])))
                 # the same relations when the estimate lives on its own time base (resampling with interpolation)
                 tt2 = np.arange(2 * nf - 1) * 0.0625
                 ef2 = np.repeat(ef, 2)[:2 * nf - 1]
